@@ -140,6 +140,21 @@ def step (_ : Unit) (line : String) : Unit × String :=
             | .ok cost _ _ _ => pure ("ok " ++ toString cost ++ " " ++ toString memorySize)
             | .err _ => pure "err"
             | .desync _ => pure "unmodelled").getD "bad-op"
+    | ["igas", p26, creation, data] =>
+      (do
+        let data ← parseHexTok data
+        match intrinsicGas (p26 == "1") data (creation == "1") with
+        | some g => pure ("ok " ++ toString g)
+        | none => pure "overflow").getD "bad-op"
+    | ["prun", addr, input] =>
+      (do
+        let addr ← addr.toNat?
+        let input ← parseHexTok input
+        if precompileGas addr input > 3000000 then pure "unmodelled" else   -- the harness does not run it either
+        match precompileRunModel addr input with
+        | none => pure "unmodelled"
+        | some none => pure "err"
+        | some (some out) => pure ("ok " ++ hexOrDash out)).getD "bad-op"
     | ["pgas", addr, input] =>
       (do
         let addr ← addr.toNat?
